@@ -923,6 +923,10 @@ def history_suite(ctx, nb):
 # -- with_pauli_noise ---------------------------------------------------------------------
 
 
+def show_queue(c):
+    return [(g.__class__.__name__, tuple(g.qubits)) for g in c.queue]
+
+
 def pauli_suite(ctx, nb):
     from qibo import gates
 
@@ -992,6 +996,36 @@ def pauli_suite(ctx, nb):
             ctx.fail("pauli-map:queue", f"with_pauli_noise: got {short(real)}, prescribed {short(exp)}",
                      PRELUDE + src + f"n1 = show(c.with_pauli_noise(noise_map)); n2 = show(c.with_pauli_noise(noise_map))\nexpected = {[(d[1], tuple(d[2]) if d[0] == 'gate' else tuple(d[2])) for d in exp]!r}\nprint(n1); print(expected)\nassert n1 == expected and n2 == expected\n",
                      expected=str(short(exp)), observed=str(short(real)), broken=["C19_corr_pauli_map"])
+    # circuits that already contain a channel - of EVERY class, unitary mixtures and the others alike - are refused with the
+    # documented ValueError (no queue is produced, so nothing can be attached after the existing channel)
+    chans = ["gates.PauliNoiseChannel(Q, [('X', 0.125)])", "gates.PauliNoiseChannel(Q, [('Z', 0.0)])", "gates.DepolarizingChannel((Q,), 0.25)",
+             "gates.UnitaryChannel((Q,), [(0.25, X), (0.125, Z)])", "gates.KrausChannel((Q,), [0.8 ** 0.5 * I2, 0.2 ** 0.5 * X])",
+             "gates.ResetChannel(Q, [0.125, 0.25])", "gates.AmplitudeDampingChannel(Q, 0.25)", "gates.PhaseDampingChannel(Q, 0.25)",
+             "gates.ThermalRelaxationChannel(Q, [1.0, 0.5, 0.25, 0.0])", "gates.ThermalRelaxationChannel(Q, [1.0, 1.5, 0.25, 0.25])",
+             "gates.ReadoutErrorChannel((Q,), P2(0.125, 0.25))"]
+    for ch in chans:
+        for rep in range(2 if ctx.thorough else 1):
+            n = rng.choice([1, 2, 3])
+            gs = gen_circuit(rng, n, rng.randint(1, 4), allow_chan=False, allow_m=False)
+            gs.insert(rng.randrange(len(gs) + 1), ch.replace("Q", str(rng.randrange(n))))
+            if rng.random() < 0.5:
+                gs.append(f"gates.M({rng.randrange(n)})")
+            nmap = {q: [("X", 0.125)] for q in range(n)} if rng.random() < 0.6 else [("X", 0.125), ("Z", 0.0625)]
+            src = f"c = Circuit({n}, density_matrix={rng.random() < 0.6})\n" + "".join(f"c.add({g})\n" for g in gs) + f"noise_map = {nmap!r}\n"
+            ns = run_source(src)
+            name = ch.split("(")[0].split(".")[1]
+            ctx.case(("pauli-refusal", src))
+            ctx.stat("pauli_refusal:" + name)
+            try:
+                got = show_queue(ns["c"].with_pauli_noise(ns["noise_map"]))
+            except ValueError:
+                continue
+            except Exception as e:  # noqa: BLE001
+                got = f"{type(e).__name__}: {e}"
+            bad += 1
+            ctx.fail("pauli-map:channel-present:" + name, f"with_pauli_noise on a circuit that already contains a {name} does not raise the documented ValueError: {got}",
+                     PRELUDE + src + "try:\n    print(show(c.with_pauli_noise(noise_map)))\nexcept ValueError:\n    raise SystemExit(0)\nraise SystemExit(1)\n",
+                     expected="ValueError", observed=str(got), broken=["C19_corr_pauli_map"])
     ctx.ob("C19_corr_pauli_map", bad == 0, "correspondence", f"{bad} disagreements" if bad else "")
 
 
